@@ -109,6 +109,9 @@ CONTAINER_ATTR = {
 REPR_ATTR = {"ext": "", "int": '#[serde(deny_unknown_fields, tag = "t")]', "adj": '#[serde(deny_unknown_fields, tag = "t", content = "c")]', "unt": "#[serde(untagged)]"}
 FIELD_NAMES = ["field_one", "_field_two", "field_three"]       # (one name that is not in the conventional case)
 VARIANT_NAMES = ["IOVarOne", "VarTwo", "VarThree"]        # (adjacent capitals: the case conversions differ on them)
+# the second field and the first variant after `Lead` are DECLARED as raw identifiers (the same name to Rust, serde and ts-rs)
+RAW_F = ["", "r#", ""]
+RAW_V = ["r#", "", ""]
 
 
 class Unit:
@@ -130,7 +133,7 @@ def _fields_src(shape, fields, vis="pub "):
     for i, f in enumerate(fields):
         attrs = " ".join(FIELD_ATTR[a] for a in f["attrs"])
         ty = TYS[f["ty"]][0]
-        parts.append("%s %s%s" % (attrs, (vis + FIELD_NAMES[i] + ": ") if named else vis, ty))
+        parts.append("%s %s%s" % (attrs, (vis + RAW_F[i] + FIELD_NAMES[i] + ": ") if named else vis, ty))
     if named:
         return "{ %s }" % ", ".join(parts)
     if shape in ("tuple", "newtype", "tuple0"):
@@ -180,7 +183,7 @@ def render_program(prog, name):
         samples.append("%s::Lead" % name)
         for i, v in enumerate(prog["variants"]):
             attrs = " ".join(VARIANT_ATTR[a] for a in v["attrs"])
-            vs.append("%s %s %s" % (attrs, VARIANT_NAMES[i], _fields_src(v["shape"], v["fields"], vis="")))
+            vs.append("%s %s%s %s" % (attrs, RAW_V[i], VARIANT_NAMES[i], _fields_src(v["shape"], v["fields"], vis="")))
             if "skip" not in v["attrs"]:
                 for k in range(min(_nvals(v["fields"]), 3)):
                     samples.append(_construct("%s::%s" % (name, VARIANT_NAMES[i]), v["shape"], v["fields"], k))
@@ -205,6 +208,17 @@ def repo_state_hash():
         h.update(open(os.path.join(TEMPLATES, f), "rb").read())
     h.update(open(os.path.abspath(__file__), "rb").read())      # the renderer itself
     return h.hexdigest()[:16]
+
+
+def _shards(units, n):
+    """round robin; units with the same meta["group"] share a shard (every shard has its own copy of the prelude: two
+    instantiations of one prelude definition are instantiations of the SAME Rust type only inside one shard)"""
+    out, where = [[] for _ in range(n)], {}
+    for i, u in enumerate(units):
+        g = u.meta.get("group")
+        k = where.setdefault(g, i % n) if g is not None else i % n
+        out[k].append(u)
+    return out
 
 
 def _write_workspace(d, shards, features, extra_deps="", extra_prelude=""):
@@ -294,7 +308,7 @@ class Corpus:
         self.cached = False
         t0 = time.time()
         units = list(self.units)
-        shards_of = lambda us: [us[i::self.nshards] for i in range(self.nshards)]
+        shards_of = lambda us: _shards(us, self.nshards)
         for attempt in range(10):
             shards = shards_of(units)
             _write_workspace(self.dir, shards, self.features, self.extra_deps, self.extra_prelude)
@@ -337,9 +351,21 @@ class Corpus:
         json.dump({"obs": obs, "rejected": self.rejected}, open(self.cache, "w"))
         return obs
 
+    def observe_reversed(self):
+        """the same observation with the entries evaluated in the opposite order (same build, new process)"""
+        self._ensure_built()
+        exe = os.path.join(self.dir, "target", "debug", "runner")
+        outp = os.path.join(self.dir, "dump-reversed.ndjson")
+        env = dict(os.environ)
+        env["VERIF_ORDER"] = "reverse"
+        p = subprocess.run([exe, "dump", outp], cwd=self.dir, env=env)
+        if p.returncode != 0:
+            raise ToolError("corpus runner failed (rc=%s)" % p.returncode)
+        return {o["name"]: o for o in map(json.loads, open(outp))}
+
     def _ensure_built(self):
         units = [u for u in self.units if u.name not in self.rejected]
-        _write_workspace(self.dir, [units[i::self.nshards] for i in range(self.nshards)], self.features, self.extra_deps, self.extra_prelude)
+        _write_workspace(self.dir, _shards(units, self.nshards), self.features, self.extra_deps, self.extra_prelude)
         rc, errs, out = _cargo_build(self.dir)
         if rc != 0:
             raise ToolError("corpus %s does not build any more:\n%s" % (self.tag, out[-3000:]))
